@@ -37,6 +37,8 @@ func mkEvalCase(f string, data map[string]spec.V, must string) evalCase {
 
 // watchdog turns a hang into a recorded violation (the process then exits).
 type watchdog struct {
+	prop  string
+	trace bool
 	mu    sync.Mutex
 	cur   interface{}
 	kind  string
@@ -45,7 +47,7 @@ type watchdog struct {
 }
 
 func startWatchdog(t testing.TB, run *h.Run, limit time.Duration) *watchdog {
-	w := &watchdog{stop: make(chan struct{})}
+	w := &watchdog{stop: make(chan struct{}), prop: os.Getenv("VERIF_PROP"), trace: os.Getenv("VERIF_TRACE") != ""}
 	go func() {
 		tk := time.NewTicker(time.Second)
 		defer tk.Stop()
@@ -70,6 +72,10 @@ func startWatchdog(t testing.TB, run *h.Run, limit time.Duration) *watchdog {
 }
 
 func (w *watchdog) enter(kind string, c interface{}) {
+	if w.trace {
+		// trace mode (the driver re-runs a shard that died without a recorded case): remember the case on disk first
+		writeCurrentCase(kind, w.prop, c)
+	}
 	w.mu.Lock()
 	w.cur, w.kind, w.since = c, kind, time.Now()
 	w.mu.Unlock()
@@ -92,7 +98,20 @@ func checkEvalTotal(c evalCase) (msg string, class string) {
 	data := spec.BuildMap(ds, rec)
 	r := formula.NewRunner()
 	r.SetThis(data)
-	out := obs.Eval(r, context.WithValue(context.Background(), ctxKey{}, "c03"), p.Src.Expression)
+	// the caller's context varies: plain, cancellable (never cancelled), with a distant deadline
+	ctx := context.WithValue(context.Background(), ctxKey{}, "c03")
+	evalCounter++
+	switch evalCounter % 3 {
+	case 1:
+		var cancel context.CancelFunc
+		ctx, cancel = context.WithCancel(ctx)
+		defer cancel()
+	case 2:
+		var cancel context.CancelFunc
+		ctx, cancel = context.WithTimeout(ctx, time.Hour)
+		defer cancel()
+	}
+	out := obs.Eval(r, ctx, p.Src.Expression)
 	switch {
 	case out.Panic != nil:
 		return fmt.Sprintf("Resolve(%q) panicked: %v", f, out.Panic), "panic"
@@ -108,6 +127,8 @@ func checkEvalTotal(c evalCase) (msg string, class string) {
 }
 
 type ctxKey struct{}
+
+var evalCounter int
 
 func init() {
 	h.RegisterReplay("c03", func(raw json.RawMessage) string {
